@@ -106,16 +106,18 @@ def gen_atom(rng, var, cls, world):
             return ["cmp", rng.choice(["==", "!="]), t, ["lit", rng.choice(["ab", "abc", "b", ""])]]
         if r < 0.8:
             return ["contains", t, ["lit", rng.choice(["a", "b", "ab", "c"])]]
-        return ["in", t, ["lit", [rng.choice(["ab", "b"]), rng.choice(["abc", "xa"])]]]
+        # collections of 0..3 strings (a one-element collection is not a substring test), either operand order
+        pool = rng.sample(["ab", "abc", "b", "xa", "", "a b", "zabc"], rng.choice([0, 1, 1, 1, 2, 2, 3]))
+        return ["in", t, ["lit", pool]] if rng.random() < 0.6 else ["contains", ["lit", pool], t]
     if r < 0.6:
         a = ["cmp", rng.choice(CMP), t, ["lit", rng.randint(0, 4)]]
         if rng.random() < 0.15:
             a = ["cmp", a[1], a[3], a[2]]       # literal on the left
         return a
     if r < 0.8:
-        return ["in", t, ["lit", sorted(rng.sample(range(5), rng.randint(1, 3)))]]
+        return ["in", t, ["lit", sorted(rng.sample(range(5), rng.choice([0, 1, 1, 2, 3])))]]
     if r < 0.9:
-        return ["contains", ["lit", sorted(rng.sample(range(5), rng.randint(1, 3)))], t]
+        return ["contains", ["lit", sorted(rng.sample(range(5), rng.choice([0, 1, 1, 2, 3])))], t]
     return ["cmp", rng.choice(CMP), t, ["path", var, rng.choice([p for p, ty in SCALARS[cls] if ty == "int"])]]
 
 
